@@ -86,6 +86,7 @@ static long g_pct_low = -1;
 static thread_fn g_fn = nullptr; static void *g_arg = nullptr;
 static uintptr_t g_base = 0;
 static bool g_stop_all = false;
+static bool g_hot = false;              // the event at this scheduling point touches library static storage or is an atomic/sync op
 
 // vector clocks
 static uint32_t VC[MAXT][MAXT];
@@ -210,6 +211,9 @@ static int pick_other(int me, bool forced) {
         for (int i = 0; i < n; i++) if (TH[cand[i]].prio > bp) { bp = TH[cand[i]].prio; best = cand[i]; }
         return best;
     }
+    case 4:     // targeted: switch often around library statics / atomics / sync ops, rarely elsewhere
+        if (forced || sim_below(&g_srng, g_hot ? 2 : c.den) == 0) return cand[sim_below(&g_srng, (uint64_t)n)];
+        return me;
     default:
         if (forced || sim_below(&g_srng, c.den) == 0) return cand[sim_below(&g_srng, (uint64_t)n)];
         return me;
@@ -270,7 +274,9 @@ static void on_access(uintptr_t a, size_t n, bool is_write, uintptr_t pc_abs) {
     if (is_readonly(a)) return;
     if (g_mode == 1) { g_seq_steps++; return; }
     uint32_t pc = (uint32_t)(pc_abs - g_base);
+    g_hot = (__start_eavdata && a >= (uintptr_t)__start_eavdata && a < (uintptr_t)__stop_eavdata) || (__start_eavbss && a >= (uintptr_t)__start_eavbss && a < (uintptr_t)__stop_eavbss);
     sched_point();
+    g_hot = false;
     ev_hash(pc);
     for (size_t i = 0; i < n; i++) check_byte(t_tid, a + i, is_write, pc);
 }
@@ -465,7 +471,7 @@ static void atomic_point(const volatile void *a, uintptr_t pc) {
     if (!active()) return;
     RtGuard rg_;
     if (g_mode == 1) { g_seq_steps++; return; }
-    sched_point(); ev_hash((uint32_t)(pc - g_base)); g_res->atomic_ops++;
+    g_hot = true; sched_point(); g_hot = false; ev_hash((uint32_t)(pc - g_base)); g_res->atomic_ops++;
     sync_acquire((const void *)a); sync_release((const void *)a);
 }
 #define ATOMICS(bits, T) \
